@@ -722,3 +722,11 @@ V("C13", "plain-files-without-licence-not-listed", "F", "R1", R + "lint.py", "  
 V("C09", "empty-style-clears-only-a-found-header", "S", "", HDP, "    if style is EmptyCommentStyle:\n        after = \"\"\n", "    if style is EmptyCommentStyle and header:\n        after = \"\"\n")
 V("C14", "concluded-join-through-a-local", "S", "", RPT, '            report.license_concluded = (\n                _LICENSING.parse(\n                    " AND ".join(\n                        f"({expression})"\n                        for reuse_info in reuse_infos\n                        for expression in reuse_info.spdx_expressions\n                    ),\n                )\n                .simplify()\n                .render()\n            )\n', '            conjunction = " AND ".join(\n                f"({expression})"\n                for reuse_info in reuse_infos\n                for expression in reuse_info.spdx_expressions\n            )\n            report.license_concluded = (\n                _LICENSING.parse(conjunction).simplify().render()\n            )\n')
 V("C14", "concluded-join-not-simplified", "F", "R1", RPT, "                .simplify()\n                .render()\n", "                .render()\n")
+# third triage pass of the sweep
+V("C11", "unencodable-header-counts-as-success", "F", "R1", ANP, '            out.write("\\n")\n            return 1\n        with open(path, "w"', '            out.write("\\n")\n            return 0\n        with open(path, "w"')
+V("C02", "snippet-answer-inverted", "F", "R5", EXP, "    if SPDX_SNIPPET_INDICATOR in content:\n        return True\n    return False\n", "    if SPDX_SNIPPET_INDICATOR in content:\n        return False\n    return False\n")
+V("C13", "plain-read-errors-not-listed", "F", "R1", R + "lint.py", "            for path in sorted(report.read_errors):\n                output.write(f\"* {path}\\n\")\n", "            for path in sorted(report.read_errors):\n                pass\n")
+V("C16", "annotations-guard-conjunction", "F", "R2", GLP, "        if not isinstance(annotation_dicts, list) or not all(\n", "        if not isinstance(annotation_dicts, list) and not all(\n")
+V("C04", "impossible-found-list-not-refused", "S", "", R + "project.py", "        if not all(item.cls == ReuseTOML for item in found):\n            raise NotImplementedError()\n", "")
+V("C19", "success-message-dropped", "S", "", R + "cli/download.py", "            _successfully_downloaded(destination)\n", "            pass\n")
+V("C03", "no-multiprocessing-option-not-stored", "S", "", R + "cli/main.py", "        no_multiprocessing=no_multiprocessing,\n", "")
